@@ -1,15 +1,22 @@
-(* Extract/C01.v — run a history of Evaluate/SetValue/Build on a workbook given
-   on the wire; answer, per operation, the returned value and the snapshot of
-   the cache (built flag and value of every node).
+(* Extract/C09.v — run a history of Evaluate/SetValue/Build on a workbook with
+   FAILING formulas (Model/Fail.v) given on the wire; answer, per operation,
+   whether it raised (and which pycel error), the returned value and the
+   snapshot of the cache (built flag and value of every node).
 
-   wire: history (nodes ops)      spec (nodes)
-     node = (input? range? deps inp0 stored formula)
+   wire: fhistory (nodes ops)     fspec (nodes failing)      history / spec as in C01
+     node = (input? range? deps inp0 stored formula fault)
+     fault = (0) none
+           | (1 k) unknown function: NameError after the first k precedents are read
+           | (2)   plugin function: returns 7, raises while the node is in the failing set
      formula = (0) | (1 cols) | (2 operand) | (3 opcode operand operand)
              | (4 operand) | (5 which operand)
      operand = (0 i) | (1 z) | (2 c1 c2 …)
-     op = (0 n) evaluate | (1 a value) set_value | (2 n) build            *)
+     op = (0 n) evaluate | (1 a value) set_value | (2 n) build
+        | (3 n flag) the plugin function of node n starts (1) / stops (0) raising
+     answer per op = (status value snapshot), status 0 returned, 1 UnknownFunction,
+                     2 FormulaEvalError; (3) for a flag operation                 *)
 From Coq Require Import ZArith List String Extraction ExtrOcamlBasic.
-From PV Require Import Lib.Py Extract.Sx Model.Ops Model.Graph Model.GraphExpr.
+From PV Require Import Lib.Py Extract.Sx Model.Ops Model.Graph Model.GraphExpr Model.Fail.
 Import ListNotations.
 Open Scope string_scope.
 
@@ -125,8 +132,100 @@ Definition spec_entry (args : list sx) : sx :=
   | _ => bad_args
   end.
 
+(* ------------------------------------------------------------ C09: faults *)
+Inductive fault := NoFault | Unknown (k : nat) | Plugin.
+
+Definition dec_fault (x : sx) : option fault :=
+  match x with
+  | SL [SZ 0] => Some NoFault
+  | SL [SZ 1; SZ k] => Some (Unknown (Z.to_nat k))
+  | SL [SZ 2] => Some Plugin
+  | _ => None
+  end%Z.
+
+Definition dec_fnode (x : sx) : option (nodeinfo * fault) :=
+  match x with
+  | SL [i; r; ds; v0; st; fm; ft] =>
+      match dec_node (SL [i; r; ds; v0; st; fm]), dec_fault ft with
+      | Some ni, Some f => Some (ni, f)
+      | _, _ => None
+      end
+  | _ => None
+  end.
+
+Definition fault_of (fs : list fault) (n : nat) : fault := nth n fs NoFault.
+
+Definition mk_fpre (fs : list fault) (n : nat) : option nat :=
+  match fault_of fs n with Unknown k => Some k | _ => None end.
+
+(* the plugin function returns 7 (harness/props/c09.py) unless it is raising *)
+Definition mk_fsem (ns : list nodeinfo) (fs : list fault) (failing : nat -> bool)
+           (n : nat) (vals : list pyval) : option pyval :=
+  match fault_of fs n with
+  | Plugin => if failing n then None else Some (VInt 7)
+  | _ => Some (mk_sem ns n vals)
+  end.
+
+Inductive fop := Op (o : gop) | Flag (n : nat) (b : bool).
+
+Definition dec_fop (x : sx) : option fop :=
+  match x with
+  | SL [SZ 3; SZ n; SZ b] => Some (Flag (Z.to_nat n) (negb (b =? 0)%Z))
+  | _ => option_map Op (dec_op x)
+  end%Z.
+
+Definition enc_fres (r : fres) : list sx :=
+  match r with
+  | FVal v => [SZ 0; enc_val v]
+  | FRaise EUnknown => [SZ 1; enc_val VNone]
+  | FRaise EFormula => [SZ 2; enc_val VNone]
+  end%Z.
+
+Fixpoint frun_trace (W : workbook) (ns : list nodeinfo) (fs : list fault)
+         (failing : nat -> bool) (s : state) (h : list fop) : list sx :=
+  match h with
+  | [] => []
+  | Flag n b :: h' =>
+      SL [SZ 3] :: frun_trace W ns fs (fun m => if Nat.eqb m n then b else failing m) s h'
+  | Op o :: h' =>
+      let '(s1, r) := step_f W (mk_fsem ns fs failing) (mk_fpre fs) (gen_order W) s o in
+      SL (enc_fres r ++ [snapshot W s1]) :: frun_trace W ns fs failing s1 h'
+  end.
+
+Definition fhistory_entry (args : list sx) : sx :=
+  match args with
+  | [SL nodes; SL ops] =>
+      match dec_list dec_fnode nodes, dec_list dec_fop ops with
+      | Some nfs, Some os =>
+          let ns := map fst nfs in
+          let W := mk_wb ns in
+          SL (frun_trace W ns (map snd nfs) (fun _ => false) (init W) os)
+      | _, _ => bad_args
+      end
+  | _ => bad_args
+  end.
+
+(* from-scratch outcome of every node under the workbook's inputs, the plugin
+   nodes listed in [failing] raising *)
+Definition fspec_entry (args : list sx) : sx :=
+  match args with
+  | [SL nodes; SL failing] =>
+      match dec_list dec_fnode nodes, sx_zs failing with
+      | Some nfs, Some fl =>
+          let ns := map fst nfs in
+          let fs := map snd nfs in
+          let W := mk_wb ns in
+          let failing n := existsb (fun z => Nat.eqb (Z.to_nat z) n) fl in
+          SL (map (fun n => SL (enc_fres (fspec W (mk_fsem ns fs failing) (mk_fpre fs) (wb_inp0 W) n)))
+                  (seq 0 (wb_n W)))
+      | _, _ => bad_args
+      end
+  | _ => bad_args
+  end.
+
 Definition table : list entry :=
-  [ E "history" history_entry; E "spec" spec_entry ].
+  [ E "history" history_entry; E "spec" spec_entry;
+    E "fhistory" fhistory_entry; E "fspec" fspec_entry ].
 
 Definition dispatch (name : list Z) (args : list sx) : sx :=
   match lookup table name with
